@@ -19,6 +19,8 @@ struct GroupSink<S> {
   /// also attach, ahead of the recorded probe, a subscriber that leaves again
   /// right away (it stays in the group's list until the next emission)
   leaver_first: bool,
+  /// false: the groups are announced but nobody subscribes them
+  attach: bool,
   _s: std::marker::PhantomData<S>,
 }
 
@@ -32,7 +34,9 @@ macro_rules! sink_impl {
         if self.leaver_first {
           g.clone().actual_subscribe(Probe::new()).unsubscribe();
         }
-        g.actual_subscribe(p);
+        if self.attach {
+          g.actual_subscribe(p);
+        }
       }
       fn error(self, e: E) {
         self.outer.error(e)
@@ -98,18 +102,20 @@ macro_rules! group_job {
         let outer = Probe::new();
         // other subscribers around: one on the source that has left again before
         // group_by subscribes, and/or one per group that leaves at once
-        let others = ch.choose(4);
+        let others = ch.choose(5);
         ch.label(|| {
-          ["group_by is the only subscriber", "an earlier subscriber of the source has left", "every group has an earlier subscriber that has left", "both"][others]
+          ["group_by is the only subscriber", "an earlier subscriber of the source has left", "every group has an earlier subscriber that has left", "both", "nobody subscribes the groups"][others]
             .to_string()
         });
+        let attach = others != 4;
         if others == 1 || others == 3 {
           src.clone().actual_subscribe(Probe::new()).unsubscribe();
         }
         let sink: GroupSink<$subj> = GroupSink {
           groups: groups.clone(),
           outer: outer.clone(),
-          leaver_first: others >= 2,
+          leaver_first: others == 2 || others == 3,
+          attach,
           _s: Default::default(),
         };
         let _u = src
@@ -160,7 +166,7 @@ macro_rules! group_job {
             );
             break;
           }
-          for (k, p) in gs.iter() {
+          for (k, p) in gs.iter().filter(|_| attach) {
             let mut exp: Vec<Note> = inp
               .items
               .iter()
@@ -238,6 +244,90 @@ fn flatten_job(key: K, form: Form, len: usize) -> Job {
   })
 }
 
+/// (the item type of a group_by cannot be inferred through a bare method call)
+fn cut1<S, O: ObservableExt<KeyObservable<V, S>, E>>(o: O) -> rxrust::ops::take::TakeOp<O> {
+  o.take(1)
+}
+
+/// The stream of groups is cut (`take(1)`) while the group handed out keeps a
+/// listener; the source is a `create` whose producer pushes on regardless (a
+/// subject would stop notifying a finished observer): the open group still gets
+/// every item of its key and the source's terminal.
+macro_rules! cut_job {
+  ($fname:ident, $subj:ty, $subscriber:ident, $label:expr) => {
+    fn $fname(len: usize) -> Job {
+      Job::new(format!("create -> group_by(mod 2) over {} -> take(1), L{len}", $label), move |ch, obs| {
+        let _w = world::World::new();
+        let slot: Arc<Mutex<Option<$subscriber<_>>>> = Arc::new(Mutex::new(None));
+        let s2 = slot.clone();
+        let groups: Arc<Mutex<Vec<(V, Probe)>>> = Arc::new(Mutex::new(vec![]));
+        let outer = Probe::new();
+        let sink: GroupSink<$subj> = GroupSink {
+          groups: groups.clone(),
+          outer: outer.clone(),
+          leaver_first: false,
+          attach: true,
+          _s: Default::default(),
+        };
+        let _u = observable::create(move |s: $subscriber<_>| {
+          *s2.lock().unwrap() = Some(s);
+        })
+        .group_by::<_, _, $subj>(|v: &V| V::I(v.num().rem_euclid(2)));
+        let _u = cut1::<$subj, _>(_u).actual_subscribe(sink);
+        let mut hist: Vec<Note> = vec![];
+        for _ in 0..len {
+          let ev = val4(ch.choose(6));
+          ch.label(|| format!("src <- {ev:?}"));
+          world::bump_step();
+          let raw = slot.lock().unwrap().clone();
+          if let Some(mut raw) = raw {
+            match &ev {
+              Note::N(v) => raw.next(v.clone()),
+              Note::C => raw.complete(),
+              Note::Err(e) => raw.error(*e),
+            }
+          }
+          hist.push(ev);
+          obs.checks += 1;
+          let inp = Seq::from_notes(&hist);
+          let gs = groups.lock().unwrap();
+          if let Some(first) = inp.items.first() {
+            let k = V::I(first.num().rem_euclid(2));
+            let mut exp: Vec<Note> =
+              inp.items.iter().filter(|x| V::I(x.num().rem_euclid(2)) == k).cloned().map(Note::N).collect();
+            match inp.t {
+              T::Open => {}
+              T::C => exp.push(Note::C),
+              T::Err(e) => exp.push(Note::Err(e)),
+            }
+            let got = gs.first().map(|(_, p)| p.notes()).unwrap_or_default();
+            if gs.len() != 1 || got != exp {
+              obs.fail(
+                format!("c20:cut-group-stream:{}", $label),
+                format!(
+                  "on [{}]: {} groups were handed out; the first one saw [{}], expected [{}]",
+                  fmt_notes(&hist),
+                  gs.len(),
+                  fmt_notes(&got),
+                  fmt_notes(&exp)
+                ),
+              );
+              break;
+            }
+          }
+        }
+        let gs = groups.lock().unwrap();
+        obs.delivered = gs.iter().map(|(_, p)| p.len() as u64).sum::<u64>() + outer.len() as u64;
+        for (_, p) in gs.iter() {
+          obs.note_outcome(&p.notes());
+        }
+      })
+    }
+  };
+}
+cut_job!(cut_local, Subject<'static, V, E>, Subscriber, "Subject");
+cut_job!(cut_threads, SubjectThreads<V, E>, SubscriberThreads, "SubjectThreads");
+
 pub fn plan(tier: Tier) -> Plan {
   let len = match tier {
     Tier::Quick => 6,
@@ -245,12 +335,16 @@ pub fn plan(tier: Tier) -> Plan {
   };
   let mut jobs = vec![];
   for key in KeyFn::ALL {
-    for others in 0..4 {
+    for others in 0..5 {
       for first in 0..6 {
         jobs.push(job_local(key, len).root(vec![others, first]));
         jobs.push(job_threads(key, len).root(vec![others, first]));
       }
     }
+  }
+  for first in 0..6 {
+    jobs.push(cut_local(len - 1).root(vec![first]));
+    jobs.push(cut_threads(len - 1).root(vec![first]));
   }
   for key in K::ALL {
     for first in 0..6 {
@@ -265,7 +359,7 @@ pub fn plan(tier: Tier) -> Plan {
       prop: "C20".into(),
       tier: tier_name(tier),
       engine: "E1 opseq".into(),
-      rule: "every script up to the length bound over items {0,1,2,3} + complete + error (events after the terminal included) x key functions {constant, identity, value mod 2, position round-robin, position chunking (stateful FnMut keys)} x Subject / SubjectThreads groups, a probe attached to each group inside the announcement callback; after every event: groups announced once per key in first-appearance order, every group probe holds exactly the items of its key in source order plus the terminal once, outer stream terminal once; group_by + flat_map(identity) reproduces the source; non-trivial = something was delivered".into(),
+      rule: "every script up to the length bound over items {0,1,2,3} + complete + error (events after the terminal included) x key functions {constant, identity, value mod 2, position round-robin, position chunking (stateful FnMut keys)} x Subject / SubjectThreads groups, a probe attached to each group inside the announcement callback (or to none of them: announcements only; or the stream of groups cut by take(1) over a create() source while the first group keeps its listener); after every event: groups announced once per key in first-appearance order, every group probe holds exactly the items of its key in source order plus the terminal once, outer stream terminal once; group_by + flat_map(identity) reproduces the source; non-trivial = something was delivered".into(),
       bounds: json!({"script_len": len, "key_functions": 5, "item_alphabet": 4}),
       assumptions: vec!["order in which different groups receive the terminal is not asserted".into()],
     },
